@@ -88,7 +88,9 @@ impl SlidingLogState {
             limit_for_period,
             window_duration,
             timeout_duration,
-            request_log: VecDeque::with_capacity(limit_for_period),
+            // The log grows with the requests actually made; reserving the whole
+            // limit up front allocates (or fails to allocate) gigabytes for large limits
+            request_log: VecDeque::with_capacity(limit_for_period.min(1024)),
         }
     }
 
